@@ -5,6 +5,49 @@ HOOK_COMMITS = ["42d3529"]
 NOT_APPLICABLE = {}
 
 PROPS = {
+    "C04": {
+        "lean": ["OxiModel.Props.C04"],
+        "streams": [{"name": "corr-decision", "quick": 3000, "thorough": 50000}],
+        "oracles": [{"name": "e2e", "args": ["C04"], "quick": 3000, "thorough": 40000},
+                    {"name": "oracle-files", "quick": 400, "thorough": 6000}],
+        "claim": "Lean 4 theorems over all byte strings and all candidate outputs: the in-memory call returns a strictly smaller result or the input; "
+                 "file routing (in place: no write; other destination: copy of the original; pretend: nothing); unforced chains of arbitrary runs never grow "
+                 "the file and change it at most input-length times (well-founded descent); acceptance strictly below budget; frames only shrink. "
+                 "is_fully_optimized is compared with the code; the whole-call behaviour is checked by end-to-end oracles (memory API incl. chains, and the "
+                 "real optimize() on files: content and mtime).",
+        "note": "The decision functions are modelled exactly; `optimize_png` (what candidate is produced) is a parameter of the theorems, which is what makes them "
+                "hold for every input and option set. Tie of finalMemory/finalFile to lib.rs:233-246,325-330 is by the end-to-end oracles.",
+        "technique": "Lean 4 proof (case analysis + induction over run chains) + correspondence/e2e oracle",
+        "rule": "is_fully_optimized on boundary and random size pairs x force; e2e: generated PNGs of all legal type/depth pairs x generated options with force=false, "
+                "plus 2-step chains with fresh options; files: in place / --out / pretend incl. already-optimal inputs; distinct = distinct (input bytes, options)",
+    },
+    "C06": {
+        "lean": ["OxiModel.Props.C06"],
+        "streams": [{"name": "corr-eval", "quick": 400, "thorough": 6000}],
+        "oracles": [{"name": "oracle-determinism", "quick": 250, "thorough": 4000}],
+        "extra": ["nopar_outputs"],
+        "claim": "Lean 4 theorem by induction over executions of the evaluator protocol (read bound / finish+publish+lower / prune) for every interleaving: the collector's "
+                 "minimum is the cmp_key-minimum of the trials admitted by the initial bound; two complete runs agree; sequential fold = min_by_key; arrival order irrelevant; "
+                 "executions are finite. Real histories (taps on AtomicMin get/set_min under an operation lock, 1..16 threads, injected delays) are replayed against the model; "
+                 "outputs are compared byte for byte across pool sizes, nesting, timing and the build without the parallel feature.",
+        "note": "Partial in the brief's sense: the proof covers the protocol's logic for all interleavings of its atomic steps; rayon's scheduler, the atomics' implementation (R1) and "
+                "the compressors being functions whose success depends only on output size (D2, D3; exercised on every logged trial) are contracts, not theorems.",
+        "technique": "Lean 4 proof (invariant over a transition system, all interleavings) + event-history replay",
+        "partial_note": "runtime part (rayon, atomics, libdeflate/zopfli determinism) is assumed as contracts R1, D2, D3 and exercised, not proved",
+        "rule": "generated images x options x pool size in {1,2,3,4,8,16} x delay injection; one history per evaluator instance; tie images (1..3 px, uniform) so that "
+                "tie-breaks decide; distinct = distinct history lines / (input, options) pairs",
+    },
+    "C17": {
+        "lean": ["OxiModel.Props.C17"],
+        "streams": [{"name": "corr-eval", "quick": 400, "thorough": 6000}],
+        "oracles": [],
+        "claim": "Lean 4 theorems about min_by_key over cmp_key: the selected candidate is a completed trial, no completed trial has a smaller key, ties follow the fixed rule "
+                 "(size, raw length, filter, later submission), the choice is a function of the set of completed trials (arrival order irrelevant). The implementation's "
+                 "winner (tap on every get_best_candidate call site and on the final acceptance) is compared with the model's on replayed real histories, incl. tie images.",
+        "note": "The published set and winner come from the taps; the emitted IDAT being the winner's is checked through the Final event and the e2e oracles of C01/C02.",
+        "technique": "Lean 4 proof (order theory on cmp_key) + event-history replay",
+        "rule": "as C06: one history per evaluator instance; distinct = distinct history lines",
+    },
     "C18": {
         "lean": ["OxiModel.Props.C18"],
         "streams": [{"name": "corr-geom", "quick": 60, "thorough": 600}],
